@@ -12,6 +12,9 @@ for p in props:
     except ModuleNotFoundError:
         na.append({"property_id": pid, "reason": "not yet claimed: the Coq model/theorems and correspondence check for this property are still under construction (see DESIGN.md section 11); nothing is claimed until its first theorem is proved"})
         continue
+    if not getattr(m, "THEOREMS", None):
+        na.append({"property_id": pid, "reason": "not yet claimed: model, specification, correspondence check and oracle exist (./check %s runs) but no theorem about the model is proved yet; claimed at level proof only once its first theorem is" % pid})
+        continue
     if getattr(m, "NOT_APPLICABLE", None):
         na.append({"property_id": pid, "reason": m.NOT_APPLICABLE})
         continue
